@@ -251,29 +251,55 @@ def State.ctxPauseOne (s : State) (c : Nat) : State :=
   | some { kind := .override var _, owner := _, old := old } => s.svSet var old
   | _ => s
 
-/-- `AsyncTask._resume_contexts` -/
-def State.resumeContexts (s : State) (t : Nat) : State :=
-  let ts := s.task t
-  if ts.ctxActive then s
-  else ts.ctxs.foldl State.ctxResumeOne (s.updTask t fun ts => { ts with ctxActive := true })
+def State.ctxIsNonAsync (s : State) (c : Nat) : Bool :=
+  match s.ctxs[c]? with
+  | some { kind := .nonasync, owner := _, old := _ } => true
+  | _ => false
 
-/-- `AsyncTask._pause_contexts` -/
-def State.pauseContexts (s : State) (t : Nat) : State :=
-  let ts := s.task t
-  if !ts.ctxActive then s
-  else ts.ctxs.reverse.foldl State.ctxPauseOne (s.updTask t fun ts => { ts with ctxActive := false })
-
-/-- `AsyncContext.__exit__`: leave_context (unregister from the task it registered with), then pause() -/
+/-- `AsyncContext.__exit__`: leave_context (unregister from the task it registered with), then pause() - unless the
+    task's contexts are already paused (the task is being failed while suspended and its generator is closed);
+    `NonAsyncContext.__exit__` only unregisters -/
 def State.ctxExit (s : State) (c : Nat) : State :=
-  let s := match s.ctxs[c]? with
-    | some { kind := _, owner := some o, old := _ } => s.updTask o fun ts => { ts with ctxs := ts.ctxs.erase c }
-    | _ => s
-  (s.ctxPauseOne c).emit (.ctxX c)
+  let owner : Option Nat := match s.ctxs[c]? with
+    | some x => x.owner
+    | none => none
+  let s := match owner with
+    | some o => s.updTask o fun ts => { ts with ctxs := ts.ctxs.erase c }
+    | none => s
+  let active := match owner with
+    | some o => (s.task o).ctxActive
+    | none => true
+  let s := if s.ctxIsNonAsync c || !active then s else s.ctxPauseOne c
+  s.emit (.ctxX c)
 
-/-- leaving every open with-block of task `t`, innermost first (return / result() / exception) -/
+/-- leaving every open with-block of task `t`, innermost first (return / result() / exception / generator.close()) -/
 def State.exitAll (s : State) (t : Nat) : State :=
   let cs := (s.task t).conts
   (cs.foldl (fun s p => s.ctxExit p.1) s).updTask t fun ts => { ts with conts := [] }
+
+/-- `_accept_error` on a task that is suspended at a yield (an error raised by a context's pause()/resume()):
+    set_error → `_computed` closes the generator (its open with-blocks exit) → on_computed -/
+def State.failSuspended (s : State) (t : Nat) (e : Err) : State :=
+  if s.computed t then s
+  else ((s.exitAll t).updTask t fun ts => { ts with pending := false }).complete t (.err e)
+
+/-- `AsyncTask._resume_contexts`: every context is resumed in entry order; the first exception raised fails the task -/
+def State.resumeContexts (s : State) (t : Nat) : State :=
+  let ts := s.task t
+  if ts.ctxActive then s
+  else
+    let s := s.updTask t fun ts => { ts with ctxActive := true }
+    let s := ts.ctxs.foldl (fun s c => if s.ctxIsNonAsync c then s else s.ctxResumeOne c) s
+    if ts.ctxs.any s.ctxIsNonAsync then s.failSuspended t .nonasync else s
+
+/-- `AsyncTask._pause_contexts`: every context is paused innermost first; the last exception raised fails the task -/
+def State.pauseContexts (s : State) (t : Nat) : State :=
+  let ts := s.task t
+  if !ts.ctxActive then s
+  else
+    let s := s.updTask t fun ts => { ts with ctxActive := false }
+    let s := ts.ctxs.reverse.foldl (fun s c => if s.ctxIsNonAsync c then s else s.ctxPauseOne c) s
+    if ts.ctxs.any s.ctxIsNonAsync then s.failSuspended t .nonasync else s
 
 /-! ### batches -/
 
@@ -517,14 +543,14 @@ def State.genStep (s : State) (t : Nat) (old : Option Nat) : State :=
       ({ s with raising := none }.updTask t fun ts => { ts with caught := some e, body := h }).emit (.syncX t f (.err e))
   | .withCtx c b k =>
     let cid := s.ctxs.length
-    let s := match c with | .override var _ => s.svTouch var | .plain => s
+    let s := match c with | .override var _ => s.svTouch var | _ => s
     let s := s.emit (.ctxN cid t c)
     let s := { s with ctxs := s.ctxs ++ [({ kind := c, owner := s.active } : CtxSt)] }
     -- enter_context registers with the scheduler's active task
     let s := match s.active with
       | some a => s.updTask a fun ts => { ts with ctxs := ts.ctxs ++ [cid] }
       | none => s
-    let s := s.ctxResumeOne cid
+    let s := if c == .nonasync then s else s.ctxResumeOne cid   -- AsyncContext.__enter__ calls resume()
     s.updTask t fun ts => { ts with conts := (cid, k) :: ts.conts, body := b }
   | .endwith =>
     match ts.conts with
